@@ -37,6 +37,8 @@ class Contract:
     hints: List[str] = dataclasses.field(default_factory=list)      # ground terms made available to matching
     uses_math: List[str] = dataclasses.field(default_factory=list)  # opt-in axioms for uninterpreted maths: "sqrt", "exp"
     reveal: List[str] = dataclasses.field(default_factory=list)     # opaque macros whose definition this proof may unfold
+    objects: Dict[int, str] = dataclasses.field(default_factory=dict)   # tuple arity -> "module:Class" for tuple-modelled objects
+    ctor_result: Optional[str] = None    # constructor of a tuple-modelled object: the parameter the new object IS
     ghost_at: Dict[int, list] = dataclasses.field(default_factory=dict)  # ghost asserts / inductive lemmas before top-level statement i
     note: str = ""
     trusted: bool = False         # contract assumed, body not verified (external / out of subset)
